@@ -234,6 +234,16 @@ def check_factory(cfg):
                     v.append(("stats:overall-min-max-sum", f"metric {n}: tracked (min,max,sum) {got}, recomputed {(mn, mx, sm)}"))
                     break
             trials = sorted({t for t, _ in fetched})
+            # derived totals: time / cost spent in the workers = sum over trials of the largest value a trial reported (the
+            # columns 'worker-time' / 'worker-cost' of the per-trial rows); a resumed job's clock starts at 0 again
+            for attr, key in (("user_time", "st_worker_time"), ("cost", "st_worker_cost")):
+                per_trial = {}
+                for t_, r_ in fetched:
+                    if key in r_ and is_num(r_[key]):
+                        per_trial[t_] = max(per_trial.get(t_, r_[key]), r_[key])
+                if per_trial and not same(getattr(ts, attr), sum(per_trial.values()), 1e-12):
+                    v.append((f"stats:{attr}", f"TuningStatus.{attr} = {getattr(ts, attr)}, the per-trial maxima of {key} handed to the loop "
+                                               f"are {per_trial} (sum {sum(per_trial.values())})"))
             for t in trials:
                 mine = [r for tt, r in fetched if tt == t]
                 st = ts.trial_metric_statistics[t]
